@@ -57,6 +57,18 @@ def agent_seeds(pid):
     return out
 
 
+def refactor_patches():
+    """Behaviour-preserving refactorings written by independent sub-agents (tests pass, outputs identical): every check must stay silent."""
+    root = os.path.join(os.path.dirname(HERE), "refactors")
+    out = []
+    if os.path.isdir(root):
+        for d in sorted(os.listdir(root)):
+            pp = os.path.join(root, d, "patch.diff")
+            if os.path.exists(pp):
+                out.append({"id": "refactor:" + d, "props": [], "patch": pp})
+    return out
+
+
 def judge(pid, seed, src_root):
     d = tempfile.mkdtemp(prefix="vsv_")
     try:
@@ -74,13 +86,14 @@ def judge(pid, seed, src_root):
 def run_for(ck, pid):
     src = repo_root()
     seeds = [s for s in SEEDS if pid in s["props"]] + agent_seeds(pid)
-    jobs = [(pid, s, src) for s in seeds] + [(pid, r, src) for r in REWRITES]
+    silent = list(REWRITES) + refactor_patches()
+    jobs = [(pid, s, src) for s in seeds] + [(pid, r, src) for r in silent]
     with ThreadPoolExecutor(max_workers=int(os.environ.get("VERIF_JOBS", "16"))) as ex:
         res = list(ex.map(lambda a: judge(*a), jobs))
     matrix = []
     missed, noisy, skipped = [], [], 0
     for (p, s, _), (sid, rc, first) in zip(jobs, res):
-        kind = "rewrite" if s in REWRITES else "seed"
+        kind = "rewrite" if s in silent else "seed"
         matrix.append({"id": sid, "kind": kind, "exit": rc, "first_report": first})
         if isinstance(rc, str):
             skipped += 1
@@ -88,7 +101,7 @@ def run_for(ck, pid):
             missed.append(sid)
         elif kind == "rewrite" and rc != 0:
             noisy.append(sid)
-    ck.extra["self_validation"] = {"seeds": len(seeds), "rewrites": len(REWRITES), "skipped": skipped, "missed": missed,
+    ck.extra["self_validation"] = {"seeds": len(seeds), "rewrites": len(silent), "skipped": skipped, "missed": missed,
                                    "false_alarms_on_rewrites": noisy, "matrix": matrix}
     # the verdict of the property itself is never changed by self-validation; a weaker-than-claimed checker is an analysis error
     # only on the tree whose digest was frozen at the last clean run
